@@ -104,6 +104,38 @@ def configure():
     PR[str.__mod__] = pct
     PR[str.format] = fmt
 
+    # 2b. CrossHair 0.0.110's symbolic re.Pattern.search never tries a match at the end position (`while pos < endpos`), so a
+    #     pattern that matches the empty string ("", "^$", "a*$") finds nothing in the empty subject.  Found by a reachability
+    #     witness that did not replay.  Same loop with `<=`.
+    import re as _re
+    from crosshair.libimpl import relib as _relib
+
+    def search_fixed(self, string, pos=0, endpos=None):
+        chr_, ord_ = _relib._check_str_or_bytes(self, string)
+        if not isinstance(pos, int):
+            raise TypeError
+        if not (endpos is None or isinstance(endpos, int)):
+            raise TypeError
+        pos, endpos = _relib.realize(pos), _relib.realize(endpos)
+        mylen = string.__len__()
+        with NoTracing():
+            if isinstance(string, (_relib.AnySymbolicStr, _relib.BytesLike)):
+                pos, endpos, _ = slice(pos, endpos, 1).indices(_relib.realize(mylen))
+                try:
+                    while pos <= endpos:
+                        match = _relib._match_pattern(self, string, pos, endpos, chr=chr_, ord=ord_)
+                        if match:
+                            return match
+                        pos += 1
+                    return None
+                except _relib.ReUnhandled as e:
+                    _relib.debug("Unsupported symbolic regex", self.pattern, e)
+            if endpos is None:
+                return _re.Pattern.search(self, _relib.realize(string), pos)
+            return _re.Pattern.search(self, _relib.realize(string), pos, endpos)
+
+    PR[_re.Pattern.search] = search_fixed
+
     # 3. counters
     oc = z3.Solver.check
 
